@@ -12,6 +12,10 @@ for d in sorted(glob.glob("seeded/*/")):
     if sel and not any(s in sid for s in sel):
         continue
     meta = json.load(open(d + "meta.json"))
+    if not meta.get("caught_by_quick_checks") and meta.get("caught_by_thorough_checks"):
+        rows.append((sid, meta["property_broken"], [], {}, True, meta.get("not_caught_by", []), "thorough tier only (" + ", ".join(meta["caught_by_thorough_checks"]) + "); not re-run by the quick regression. " + meta.get("note", "")))
+        print(sid, "SKIPPED (thorough only)", flush=True)
+        continue
     checks = meta.get("caught_by_quick_checks") or [meta["property_broken"][:3]]
     out = subprocess.run(["tools/try_mutant.sh", os.path.abspath(d + "patch.diff"), "quick"] + checks, capture_output=True, text=True).stdout
     res = {}
